@@ -859,6 +859,9 @@ func classifyFailure(d *spec.Design, m *spec.Method, payload, result any, ex *si
 		}
 	}
 	msg := cerr.Error()
+	if strings.Contains(msg, "invalid response") && strings.Contains(msg, "is missing from") && sameNestedTypeTwoViews(d, resultType(d, m)) {
+		return "view:same-nested-type-under-two-views"
+	}
 	absentMinLen := func(a *spec.Attr, v any) bool {
 		if a == nil {
 			return false
@@ -904,10 +907,18 @@ func reachedClass(d *spec.Design, m *spec.Method, v gen.Violation) string {
 
 // classifyFailureAny recognises, in any mode, the defect classes that make a
 // request fail before the scenario's own subject is reached.
-func classifyFailureAny(d *spec.Design, m *spec.Method, payload, result any, ex *simnet.Exchange) string {
-	c := classifyFailure(d, m, payload, result, ex, fmt.Errorf("%s", ex.RespBody))
-	if c == "path-param-contains-slash" || strings.HasPrefix(c, "optional-collection-with-min-length-left-unset") {
-		return c
+func classifyFailureAny(d *spec.Design, m *spec.Method, payload, result any, ex *simnet.Exchange, cerrs ...error) string {
+	msgs := []error{fmt.Errorf("%s", ex.RespBody)}
+	for _, e := range cerrs {
+		if e != nil {
+			msgs = append(msgs, e)
+		}
+	}
+	for _, e := range msgs {
+		c := classifyFailure(d, m, payload, result, ex, e)
+		if c == "path-param-contains-slash" || strings.HasPrefix(c, "optional-collection-with-min-length-left-unset") || c == "view:same-nested-type-under-two-views" {
+			return c
+		}
 	}
 	return ""
 }
@@ -1230,7 +1241,7 @@ func wireKeys(d *spec.Design, raw json.RawMessage, u *spec.UserType, view string
 		}
 		if f != nil && f.Type.Kind == spec.User && obj[fn] != nil && so[fn] != nil {
 			if nu := d.UserType(f.Type.Name); nu != nil && nu.IsResult {
-				errs = append(errs, wireKeys(d, obj[fn], nu, f.View, so[fn], path+"."+fn)...)
+				errs = append(errs, wireKeys(d, obj[fn], nu, vw.NestedView(f), so[fn], path+"."+fn)...)
 			}
 		}
 	}
@@ -1493,6 +1504,10 @@ func judgeContract(o *engine.Outcome, w *world, d *spec.Design, design string, s
 		if rerr != nil && strings.Contains(rerr.Error(), "value out of range") {
 			rerr = nil
 		}
+		if rerr != nil && strings.Contains(rerr.Error(), "response header") && strings.Contains(rerr.Error(), "is not one of the allowed values") {
+			o.Features["c14_skipped_validator_param_enum"]++ // same int64-vs-float64 enum comparison as for request parameters
+			rerr = nil
+		}
 		if rerr != nil && strings.Contains(rerr.Error(), "Content-Type has unexpected value") && ex.Status >= 400 {
 			// judged as its own class; the body is then checked under the documented media type
 			o.Violate("contract_response", "response:declared-error:media-type", "%s: the %d error response is sent as %q but openapi3.json documents another media type: %v", where, ex.Status, ex.RespHeader.Get("Content-Type"), firstLine(rerr.Error()))
@@ -1560,14 +1575,17 @@ func sameNestedTypeTwoViews(d *spec.Design, x *spec.UserType) bool {
 	if x == nil {
 		return false
 	}
-	seen := map[string]string{}
-	for _, f := range x.Attr.Type.Fields {
-		if f.Type.Kind == spec.User {
-			if nu := d.UserType(f.Type.Name); nu != nil && nu.IsResult {
-				if v, ok := seen[nu.Name]; ok && v != f.View {
-					return true
+	for _, vw := range append([]*spec.View{nil}, x.Views...) {
+		seen := map[string]string{}
+		for _, f := range x.Attr.Type.Fields {
+			if f.Type.Kind == spec.User {
+				if nu := d.UserType(f.Type.Name); nu != nil && nu.IsResult {
+					nv := vw.NestedView(f)
+					if v, ok := seen[nu.Name]; ok && v != nv {
+						return true
+					}
+					seen[nu.Name] = nv
 				}
-				seen[nu.Name] = f.View
 			}
 		}
 	}
